@@ -121,6 +121,12 @@ RACE_TEMPLATES = [
     ["usr u1 udp sendto yield close", "usr u2 todo:0 yield cancel"],
     ["usr u1 todo:0 yield cancel", "usr u2 todo:0 yield cancel"],
     ["usr u1 udp yield sendto yield sendto yield close"],
+    # destructor of an async TCP socket racing with its own disconnect handler on the driver thread
+    ["usr u1 tcp pclose yield yield close"],
+    ["usr u1 tcp pclose yield yield yield close", "usr u2 todo:0 yield cancel"],
+    ["usr u1 tcp yield pclose waitdisc close"],
+    ["usr u1 tcp pclose waitdiscstart close"],
+    ["usr u1 tcp pclose waitdiscstart yield close", "usr u2 udp yield close"],
 ]
 
 
